@@ -1,10 +1,10 @@
 package props
 
 import (
-	"encoding/binary"
 	"bytes"
 	"crypto/elliptic"
 	"encoding/asn1"
+	"encoding/binary"
 	"encoding/hex"
 	"fmt"
 	"io"
